@@ -51,10 +51,29 @@ def parseMCNPSurface(mcnp_parser):
     return dict_surface
 
 
+# number of parameters admitted by each MCNP surface card
+SURFACE_N_PARAMS = {
+    MS.PX: (1,), MS.PY: (1,), MS.PZ: (1,),
+    MS.SO: (1,), MS.S: (4,), MS.SX: (2,), MS.SY: (2,), MS.SZ: (2,),
+    MS.C_X: (3,), MS.C_Y: (3,), MS.C_Z: (3,),
+    MS.CX: (1,), MS.CY: (1,), MS.CZ: (1,),
+    MS.K_X: (4, 5), MS.K_Y: (4, 5), MS.K_Z: (4, 5),
+    MS.KX: (2, 3), MS.KY: (2, 3), MS.KZ: (2, 3),
+    MS.SQ: (10,), MS.GQ: (10,),
+    MS.TX: (6,), MS.TY: (6,), MS.TZ: (6,),
+    MS.X: (2, 4, 6), MS.Y: (2, 4, 6), MS.Z: (2, 4, 6),
+}
+
+
 def normalize_surface(typ, params):
     '''Put the surface parametrization in a canonical form. For instance,
     planes defined by three points are transformed into the equivalent
     (A,B,C,D) representation.'''
+    n_params = SURFACE_N_PARAMS.get(typ, None)
+    if n_params is not None and len(params) not in n_params:
+        expected = ' or '.join(str(n_param) for n_param in n_params)
+        raise ValueError(f'Surfaces "{typ.name}" expect {expected} '
+                         f'parameters, got {len(params)}: {params}')
     if typ == MS.P:
         if len(params) == 9:
             params = planeParamsFromPoints(params[0:3],
